@@ -8,8 +8,9 @@
    correspondence only. *)
 From XcpModel Require Import Base Backup Paths Walker Main.
 From XcpProofs Require Import MainProofs.
+From XcpProofs Require Import XMain.
 From XcpModel Require Import Extracted.
-From XcpProofs Require Import ExtractedOk PinnedSource.
+From XcpProofs Require Import PinnedSource.
 From XcpPins Require Import Pin_main_main Pin_main_expand_globs Pin_main_opts_check Pin_common_is_same_file.
 
 (* every class of invalid invocation is rejected by the validation block, for
@@ -89,3 +90,10 @@ Print Assumptions C16_src_pin_main_expand_globs.
 Print Assumptions C16_src_pin_main_opts_check.
 Print Assumptions C16_src_pin_common_is_same_file.
 Print Assumptions C16_src_main_validation_block.
+
+(* ---- further glue on this property's path, pinned token for token (an edit re-opens the obligation; the run then
+   looks for a failing input) ---- *)
+From XcpPins Require Import Pin_main_expand_sources.
+Theorem C16_src_pin_main_expand_sources : pin_unchanged name_main_expand_sources.
+Proof. exact pin_main_expand_sources. Qed.
+Print Assumptions C16_src_pin_main_expand_sources.
